@@ -29,6 +29,13 @@ func (p *P0x8800) ReplyProtocol() consts.JT808CommandType {
 
 func (p *P0x8800) Parse(jtMsg *jt808.JTMessage) error {
 	body := jtMsg.Body
+	if len(body) == 4 {
+		// 全部数据包都收到了 没有重传包总数和ID列表
+		p.MultimediaID = binary.BigEndian.Uint32(body[0:4])
+		p.AgainPackageCount = 0
+		p.AgainPackageList = nil
+		return nil
+	}
 	if len(body) < 5 {
 		return protocol.ErrBodyLengthInconsistency
 	}
